@@ -14,8 +14,52 @@ use crate::rng::{mix, Rng};
 use crate::syncdrive::{self as sd, Chunking};
 use crate::wire;
 
+/// A parsed (empty) request, needed to construct stream parsers directly.
+fn sample_request() -> fastcgi_server::parser::Request {
+    let cfg = config(64, 1);
+    let mut bytes = Vec::new();
+    wire::begin_request(&mut bytes, 1, 1, 1, 0);
+    wire::record(&mut bytes, wire::PARAMS, 1, &[], 0);
+    let mut p = request::Parser::new(&cfg);
+    p.input_buffer()[..bytes.len()].copy_from_slice(&bytes);
+    let _ = p.parse(bytes.len());
+    p.into_request().expect("well-formed preamble").0
+}
+
 fn check_size(c: &mut Case, size: usize) -> bool {
     let cfg = config(size, 1);
+    // every way to obtain a parser buffer obeys the same sizing rule
+    thread_local! {
+        static REQ: fastcgi_server::parser::Request = sample_request();
+    }
+    if size % 7 == 0 || size < 4096 {
+        let r = guarded(|| {
+            let req = REQ.with(Clone::clone);
+            let mut sp = fastcgi_server::parser::stream::Parser::new(&cfg, req);
+            let a = sp.input_buffer().len();
+            let b = sp.into_request_parser().map(|mut rp| rp.input_buffer().len());
+            (a, b)
+        });
+        match r {
+            Ok((a, Ok(b))) => {
+                c.l.count("stream_parser_new_sizes_checked");
+                for (what, eff) in [("stream::Parser::new", a), ("stream::Parser::new(..).into_request_parser()", b)] {
+                    if eff < size || eff < 24 || eff % 8 != 0 {
+                        c.violation("effective-buffer-size-stream-new", Json::obj().with("buffer_size", size).with("effective", eff).with("constructor", what));
+                        return false;
+                    }
+                }
+            }
+            Ok((_, Err(e))) => {
+                c.violation("stream-new-conversion", Json::obj().with("buffer_size", size).with("error", sd::err_kind(&e)));
+                return false;
+            }
+            Err(p) => {
+                c.violation(panic_signature(&p), Json::obj().with("buffer_size", size).with("panic", p));
+                return false;
+            }
+        }
+    }
     let r = guarded(|| {
         let mut p = request::Parser::new(&cfg);
         p.input_buffer().len()
